@@ -259,7 +259,10 @@ impl Process {
     }
 
     pub(crate) fn do_tick(&self) {
-        self.find_tasks(|t| t.hooks().contains_key(&TaskLifeCycle::Timeout))
+        // only open tasks can time out
+        self.find_tasks(|t| {
+            !t.state().is_completed() && t.hooks().contains_key(&TaskLifeCycle::Timeout)
+        })
             .iter()
             .for_each(|t| {
                 let ctx = t.create_context();
